@@ -670,6 +670,22 @@ INVALID_OPS = {
     "UniqueInputFieldNamesRule": "query A { inp(i: {a: 1, a: 2}) }",
     "MaxIntrospectionDepthRule": "query A { __schema { types { fields { type { fields { type { fields { type { fields { name } } } } } } } } } }",
 }
+# documents made of fragments only (a supported layout: the operations live elsewhere or are built later): the fragment
+# is validated against the schema exactly like one that an operation spreads
+INVALID_FRAGMENTS_ONLY = {
+    "FieldsOnCorrectTypeRule": "fragment F on User { nickname }",
+    "KnownTypeNamesRule": "fragment F on Nope { id }",
+    "UniqueFragmentNamesRule": "fragment F on User { id }\nfragment F on User { name }",
+    "NoFragmentCyclesRule": "fragment F on User { friends { ...F } }",
+    "KnownFragmentNamesRule": "fragment F on User { ...Nope }",
+    "KnownDirectivesRule": "fragment F on User { id @nope }",
+    "FragmentsOnCompositeTypesRule": "fragment F on DateTime { x }",
+    "ScalarLeafsRule": "fragment F on User { friends }",
+    "PossibleFragmentSpreadsRule": "fragment F on User { ... on Dog { bark } }",
+    "KnownArgumentNamesRule": "fragment F on Query { hello(nope: 1) }",
+    "ValuesOfCorrectTypeRule": 'fragment F on Query { hello(x: "s") }',
+    "ProvidedRequiredArgumentsRule": "fragment F on Query { need }",
+}
 VALID_OPS = {
     "unused-fragment": "query A { hello }\nfragment F on User { id }",   # NoUnusedFragmentsRule is deliberately not applied
     "mixin-directive": 'query A { me @mixin(from: ".mixins", import: "M") { id } }',
@@ -698,6 +714,21 @@ def operation_rule_cases():
                 c.update({"id": f"{group}/{rule}/{variant}", "expect": expect, "names": [], "cls": None,
                           "group": group, "kind": rule})
                 out.append(c)
+    for rule, q in INVALID_FRAGMENTS_ONLY.items():
+        for variant in ("file", "two-files", "pre"):
+            c = base_case()
+            if variant == "two-files":
+                del c["files"]["queries.graphql"]
+                c["files"]["qs/a.graphql"] = "fragment Fine on User { id }\n"
+                c["files"]["qs/b.graphql"] = q + "\n"
+                sec(c)["queries_path"] = "{ROOT}/qs"
+            else:
+                c["files"]["queries.graphql"] = q + "\n"
+            if variant == "pre":
+                o_preexisting(c)
+            c.update({"id": f"invalid-operation/fragments-only-{rule}/{variant}", "expect": "invalid", "names": [],
+                      "cls": None, "group": "invalid-operation", "kind": rule})
+            out.append(c)
     # an anonymous operation alone is valid GraphQL but cannot be given a method name: ParsingError, typed
     c = base_case()
     c["files"]["queries.graphql"] = "{ hello }\n"
